@@ -60,8 +60,29 @@ def gen_case(rng: random.Random, tier: str, bias: str = ''):
                 cap = rng.choice([1, 2])
     ch = rng.choice([('random', 0.0), ('random', 0.0), ('sticky', 0.2, 0.0), ('sticky', 0.05, 0.0),
                      ('pct', 2, 200, 0.0), ('pct', 3, 200, 0.0)])
+    final_renew = rng.random() < 0.5
+    # late consumers: per round, consumers that start iterating only when the round is already over
+    # (before `renew`); early suppliers: per round, suppliers of the NEXT round that start (put, then
+    # `put_end(wait_for_renew=True)`) when the round is over and before `renew` -- the use documented
+    # in `put_end`.  Early suppliers need the stop event (they are released through it on failure).
+    late = [[] for _ in range(rounds)]
+    early = [[] for _ in range(rounds)]
+    if stop is None and rng.random() < (0.8 if bias in ('late', 'early') else 0.2):
+        for r in range(rounds):
+            if n >= 2 and rng.random() < 0.7:
+                late[r] = sorted(rng.sample(range(n), rng.randrange(1, n)))
+        if bias == 'early' or rng.random() < 0.5:
+            if rounds == 1:
+                rounds = 2
+                items.append([[1000 + 100 * i + j for j in range(rng.choice([0, 1, 2]))] for i in range(m)])
+                late.append([])
+                early.append([])
+            resp = True
+            for r in range(rounds - 1):
+                if rng.random() < 0.8:
+                    early[r] = sorted(rng.sample(range(m), rng.randrange(1, m + 1)))
     return dict(m=m, n=n, cap=cap, rounds=rounds, items=items, resp=resp, stop=stop, hold_sup=hold_sup,
-                skip_con=skip_con, final_renew=rng.random() < 0.5, chooser=list(ch),
+                skip_con=skip_con, final_renew=final_renew, late=late, early=early, chooser=list(ch),
                 seed=rng.randrange(1 << 30))
 
 
@@ -126,6 +147,8 @@ def run_case(case):
         def _put(self, x):
             r = _role()
             if x is None:
+                if r[0] == 'S':
+                    state['marks'] += 1
                 log(('mark', int(r[1:])) if r[0] == 'S' else ('xput', int(r[1:])) if r[0] == 'C' else ('mput',))
             else:
                 log(('put', int(r[1:]), _unwrap(x)) if r[0] == 'S' else ('badput', r, _unwrap(x)))
@@ -181,8 +204,84 @@ def run_case(case):
                         log(('full', int(r[1:]), int(b)))
                 return b
 
+    class FeedTok:
+        """Scheduler-driven stand-in for a `multiprocessing.Queue(maxsize)` used as token queue (what
+        `IterableQueue` picks when `to_stop` is given or the data queue is a multiprocessing queue):
+        `put` appends to a buffer and returns; a feeder thread moves buffered objects to the "pipe",
+        one at a time, whenever it is scheduled; `get` and `empty` only see the pipe; `full` and
+        `qsize` count buffer + pipe (the bounded semaphore), exactly as `multiprocessing.queues.Queue`
+        does.  The real class cannot run under the scheduler (blocking pipe reads)."""
+
+        def __init__(self, which, maxsize, initial):
+            self.which = which
+            self.maxsize = maxsize
+            self.buf = collections.deque()
+            self.pipe = collections.deque(initial)
+            self.count = len(initial)
+            self.closed = False
+            self.feeder = None
+
+        def _feed(self):
+            while True:
+                detsched.SCHED.wait_until(lambda: self.buf or self.closed, None, 'feedtok.feeder')
+                if not self.buf:
+                    return
+                self.pipe.append(self.buf.popleft())
+                detsched.yield_here('feedtok.flushed')
+
+        def put(self, x, block=True, timeout=None):
+            ok = detsched.SCHED.wait_until(lambda: self.count < self.maxsize, timeout if block else 0, 'feedtok.put')
+            if not ok:
+                raise queue.Full
+            r = _role()
+            if self.which == 'applied' and r[0] == 'S':
+                log(('sapp', int(r[1:])))
+            elif self.which == 'used' and r[0] == 'C':
+                log(('give', int(r[1:])))
+            self.count += 1
+            self.buf.append(x)
+            if self.feeder is None:
+                self.feeder = threading.Thread(target=self._feed, name=f'F-{self.which}', daemon=True)
+                self.feeder.start()
+            detsched.yield_here('feedtok.put')
+
+        def get(self, block=True, timeout=None):
+            ok = detsched.SCHED.wait_until(lambda: len(self.pipe) > 0, timeout if block else 0, 'feedtok.get')
+            if not ok:
+                raise queue.Empty
+            r = _role()
+            if self.which == 'spare' and r[0] == 'S':
+                log(('sbeg', int(r[1:])))
+            elif self.which == 'applied' and r[0] == 'C':
+                log(('take', int(r[1:])))
+            x = self.pipe.popleft()
+            self.count -= 1
+            detsched.yield_here('feedtok.get')
+            return x
+
+        def empty(self):
+            detsched.yield_here('feedtok.empty')
+            return not self.pipe
+
+        def full(self):
+            detsched.yield_here('feedtok.full')
+            b = self.count >= self.maxsize
+            if self.which == 'used':
+                r = _role()
+                if r[0] == 'C':
+                    log(('full', int(r[1:]), int(b)))
+            return b
+
+        def qsize(self):
+            return self.count
+
+        def close(self):
+            self.closed = True
+            if self.feeder is not None:
+                self.feeder.join()
+
     deq = [[] for _ in range(n)]
-    state = dict(tlast=0, stop_at=None, fine=False)
+    state = dict(tlast=0, stop_at=None, fine=False, marks=0)
     rounds_log = []     # per round: dict(put=[...], got=[[...] per consumer], complete=bool)
 
     def tick_cb(s):
@@ -221,14 +320,21 @@ def run_case(case):
                     old = getattr(iq, f'_{which}_lids')
                     if type(old) is not queue.Queue:
                         raise AttributeError(which)
-                    t = LogTok(which, old.maxsize)
-                    for z in list(old.queue):
-                        t.put(z)
+                    if to_stop is not None:
+                        # helper-queue kind as `__init__` chooses it: multiprocessing queues when the
+                        # data queue is not a plain thread queue -- which includes every queue wrapped
+                        # in a ResponsiveQueue, i.e. whenever `to_stop` is given
+                        t = FeedTok(which, old.maxsize, list(old.queue))
+                    else:
+                        t = LogTok(which, old.maxsize)
+                        for z in list(old.queue):
+                            t.put(z)
                     toks[which] = t
                 for which, t in toks.items():
                     setattr(iq, f'_{which}_lids', t)
                     t.on = True
                 state['fine'] = True
+                state['toks'] = toks
             except AttributeError:
                 state['fine'] = False
         sstat = ['i'] * m
@@ -238,8 +344,10 @@ def run_case(case):
         probes = []
         err = []
 
-        def sup(i, r, hold):
+        def sup(i, r, hold, early=False):
             try:
+                if early:
+                    log(('early', i))       # from here on the run is outside the modelled protocol
                 for x in case['items'][r][i]:
                     log(('pbeg', i, x))
                     state[('sop', i)] = detsched.now()
@@ -247,7 +355,10 @@ def run_case(case):
                 if hold:
                     return
                 state[('sop', i)] = detsched.now()
-                iq.put_end()
+                if early:
+                    iq.put_end(wait_for_renew=True)
+                else:
+                    iq.put_end()
                 sstat[i] = 'e'
             except StopRequested:
                 log(('sstop', i))
@@ -265,6 +376,11 @@ def run_case(case):
                     got[j].append(_unwrap(z))
                     state[('cop', j)] = detsched.now()
                 cstat[j] = 'd'
+                need = m * (state['round'] + 1)
+                if state['marks'] < need:
+                    mon.append(dict(prop='C17', rule='ended-early',
+                                    detail=f"round {state['round']}: consumer {j}'s iteration ended after receiving {got[j]} although only "
+                                           f"{state['marks'] - need + m} of {m} suppliers had ended"))
             except StopRequested:
                 log(('cstop', j))
                 cstat[j] = 's'
@@ -277,6 +393,8 @@ def run_case(case):
         def check_resp(kind, k):
             # C17 stop clause: StopRequested arrives within one wait interval of the later of the
             # stop request and the start of the blocking operation
+            if state.get('cleanup'):
+                return
             t = detsched.now()
             t_op = state.get(('sop' if kind == 'S' else 'cop', k), 0)
             t_stop = state['stop_at']
@@ -294,55 +412,98 @@ def run_case(case):
             log(('setstop',))
             to_stop.set()
 
-        for r in range(case['rounds']):
-            stopping = stop_plan is not None and stop_plan['round'] == r
-            got = [[] for _ in range(n)]
-            rec = dict(put=[x for row in case['items'][r] for x in row], got=got, complete=False)
-            rounds_log.append(rec)
-            for i in range(m):
-                sstat[i] = 'i'
-            for j in range(n):
-                cstat[j] = 'f'
-            ts = [threading.Thread(target=sup, args=(i, r, stopping and i in case['hold_sup']), name=f'S{i}')
-                  for i in range(m)]
-            ts += [threading.Thread(target=con, args=(j, got), name=f'C{j}') for j in range(n)
-                   if not (stopping and j in case['skip_con'])]
-            if stopping:
-                ts.append(threading.Thread(target=stopper, args=(stop_plan,), name='X'))
-            order = list(range(len(ts)))
-            random.Random(case['seed'] + r).shuffle(order)
-            for k in order:
-                ts[k].start()
-            for t in ts:
-                t.join()
-            p = probe(iq, logq)
-            probes.append((len(ev), dict(p, cons=''.join(cstat), sups=''.join(sstat))))
-            log(('probe', len(probes) - 1))
-            if err:
-                break
-            rec['complete'] = all(c == 'd' for c in cstat) and all(c == 'e' for c in sstat)
-            if not rec['complete']:
-                break
-            rec['leftover'] = p
-            if r < case['rounds'] - 1 or case['final_renew']:
-                log(('rstart',))
-                try:
-                    iq.renew()
-                    renewed += 1
-                    sstat = ['i'] * m
-                    cstat = ['f'] * n
-                except StopRequested:
-                    log(('rstop',))
-                    rstat = 'stopped'
-                    break
-                except RuntimeError as e:
-                    err.append(('renew', repr(e)))
-                    rstat = 'failed'
-                    break
+        rounds_n = case['rounds']
+        late_plan = case.get('late') or [[] for _ in range(rounds_n)]
+        early_plan = case.get('early') or [[] for _ in range(rounds_n)]
+        early_threads = {}      # suppliers of the coming round that were started before `renew`
+        try:
+            for r in range(rounds_n):
+                state['round'] = r
+                stopping = stop_plan is not None and stop_plan['round'] == r
+                late = set() if stopping else set(late_plan[r])
+                got = [[] for _ in range(n)]
+                rec = dict(put=[x for row in case['items'][r] for x in row], got=got, complete=False)
+                rounds_log.append(rec)
+                for i in range(m):
+                    if i not in early_threads:
+                        sstat[i] = 'i'
+                for j in range(n):
+                    cstat[j] = 'f'
+                ts = [threading.Thread(target=sup, args=(i, r, stopping and i in case['hold_sup']), name=f'S{i}')
+                      for i in range(m) if i not in early_threads]
+                ts += [threading.Thread(target=con, args=(j, got), name=f'C{j}') for j in range(n)
+                       if not (stopping and j in case['skip_con']) and j not in late]
+                if stopping:
+                    ts.append(threading.Thread(target=stopper, args=(stop_plan,), name='X'))
+                order = list(range(len(ts)))
+                random.Random(case['seed'] + r).shuffle(order)
+                for k in order:
+                    ts[k].start()
+                for t in ts + list(early_threads.values()):
+                    t.join()
+                early_threads = {}
                 p = probe(iq, logq)
-                rec['after_renew'] = p
-                probes.append((len(ev), dict(p, round=renewed)))
+                probes.append((len(ev), dict(p, cons=''.join(cstat), sups=''.join(sstat))))
                 log(('probe', len(probes) - 1))
+                if err:
+                    break
+                rec['complete'] = all(c == 'd' for j, c in enumerate(cstat) if j not in late) and all(c == 'e' for c in sstat)
+                if not rec['complete']:
+                    break
+                rec['leftover'] = p
+                nxt_early = list(early_plan[r]) if r < rounds_n - 1 else []
+                if late or nxt_early:
+                    # the round is over: late consumers iterate now, and suppliers of the next round may
+                    # start already (items, then put_end(wait_for_renew=True)) -- all before `renew`
+                    lts = [threading.Thread(target=con, args=(j, got), name=f'C{j}') for j in sorted(late)]
+                    ets = {i: threading.Thread(target=sup, args=(i, r + 1, False, True), name=f'S{i}') for i in nxt_early}
+                    both = lts + list(ets.values())
+                    random.Random(case['seed'] + 7 * r + 3).shuffle(both)
+                    for t in both:
+                        t.start()
+                    early_threads = ets
+                    for t in lts:
+                        t.join()
+                    if err:
+                        break
+                    rec['complete'] = all(c == 'd' for c in cstat)
+                    if not rec['complete']:
+                        break
+                    if late and not nxt_early:
+                        p = probe(iq, logq)
+                        probes.append((len(ev), dict(p, cons=''.join(cstat), sups=''.join(sstat))))
+                        log(('probe', len(probes) - 1))
+                if r < rounds_n - 1 or case['final_renew']:
+                    log(('rstart',))
+                    try:
+                        iq.renew()
+                        renewed += 1
+                        sstat = ['i'] * m
+                        cstat = ['f'] * n
+                    except StopRequested:
+                        log(('rstop',))
+                        rstat = 'stopped'
+                        break
+                    except RuntimeError as e:
+                        err.append(('renew', repr(e)))
+                        rstat = 'failed'
+                        break
+                    if not nxt_early:
+                        p = probe(iq, logq)
+                        rec['after_renew'] = p
+                        probes.append((len(ev), dict(p, round=renewed)))
+                        log(('probe', len(probes) - 1))
+        finally:
+            if not detsched.SCHED.aborting:
+                # release early suppliers still waiting for a renew that did not happen, stop the feeders
+                if any(t.is_alive() for t in early_threads.values()) and to_stop is not None:
+                    state['cleanup'] = True
+                    to_stop.set()
+                for t in early_threads.values():
+                    t.join()
+                for t in (state.get('toks') or {}).values():
+                    if hasattr(t, 'close'):
+                        t.close()
         final = probe(iq, logq)
         final.update(cons=''.join(cstat), sups=''.join(sstat), round=renewed, rpc=rstat)
         return dict(final=final, probes=probes, err=err)
@@ -407,6 +568,11 @@ def model_lines(cid, case, res):
     events = res['events']
     truncated = len(events) > 1200        # a livelock under polling: the prefix is enough
     for e in events[:1200]:
+        if e[0] == 'early':
+            # a supplier of the next round starts before `renew`: documented use, outside the modelled
+            # protocol; the trace is validated up to here, the rest of the run is covered by monitors only
+            truncated = True
+            break
         if e[0] == 'probe':
             if e[1] < len(probes):
                 lines.append('probe ' + ' '.join(f'{k}={v}' for k, v in probes[e[1]][1].items()))
